@@ -37,6 +37,14 @@ type sbyte struct {
 	str bool
 }
 
+// sfail is fail with the characters that would open a string or a nested comment inside the Coq
+// comment the message ends up in ("(* LOST: ... *)") replaced.
+func sfail(format string, args ...any) {
+	msg := fmt.Sprintf(format, args...)
+	msg = strings.NewReplacer("\"", "'", "(*", "( *", "*)", "* )").Replace(msg)
+	fail("%s", msg)
+}
+
 type interp struct {
 	bools   map[string]bool // boolean variables and atomic conditions, by printed source
 	byteVar string          // printed source of the byte being looked at ("c", "ch", "s[i]")
@@ -125,7 +133,7 @@ func (p *interp) cond(e ast.Expr) bool {
 			}
 		}
 	}
-	fail("skeleton: cannot evaluate condition %s", src(e))
+	sfail("skeleton: cannot evaluate condition %s", src(e))
 	return false
 }
 
@@ -136,7 +144,7 @@ func (p *interp) byteExpr(e ast.Expr) sbyte {
 	if v, ok := charLit(e); ok {
 		return sbyte{lit: v}
 	}
-	fail("skeleton: not a byte expression: %s", src(e))
+	sfail("skeleton: not a byte expression: %s", src(e))
 	return sbyte{}
 }
 
@@ -147,7 +155,7 @@ func (p *interp) stringBytes(e ast.Expr) []sbyte {
 	if bl, ok := e.(*ast.BasicLit); ok && bl.Kind == token.STRING {
 		s, err := strconv.Unquote(bl.Value)
 		if err != nil {
-			fail("skeleton: unquote %s", bl.Value)
+			sfail("skeleton: unquote %s", bl.Value)
 		}
 		out := []sbyte{}
 		for _, c := range []byte(s) {
@@ -155,7 +163,7 @@ func (p *interp) stringBytes(e ast.Expr) []sbyte {
 		}
 		return out
 	}
-	fail("skeleton: not a string literal or the string argument: %s", src(e))
+	sfail("skeleton: not a string literal or the string argument: %s", src(e))
 	return nil
 }
 
@@ -188,7 +196,7 @@ func (p *interp) stmt(st ast.Stmt) {
 	case *ast.ExprStmt:
 		call, ok := s.X.(*ast.CallExpr)
 		if !ok {
-			fail("skeleton: unsupported statement %s", src(st))
+			sfail("skeleton: unsupported statement %s", src(st))
 		}
 		fn := src(call.Fun)
 		if fn == "panic" {
@@ -197,31 +205,31 @@ func (p *interp) stmt(st ast.Stmt) {
 		}
 		sel, ok := call.Fun.(*ast.SelectorExpr)
 		if !ok || !p.writers[src(sel.X)] {
-			fail("skeleton: unsupported call %s", src(st))
+			sfail("skeleton: unsupported call %s", src(st))
 		}
 		switch sel.Sel.Name {
 		case "WriteByte":
 			if len(call.Args) != 1 {
-				fail("skeleton: %s", src(st))
+				sfail("skeleton: %s", src(st))
 			}
 			p.out = append(p.out, p.byteExpr(call.Args[0]))
 		case "Write":
 			cl, ok := call.Args[0].(*ast.CompositeLit)
 			if len(call.Args) != 1 || !ok || src(cl.Type) != "[]byte" {
-				fail("skeleton: unsupported Write argument in %s", src(st))
+				sfail("skeleton: unsupported Write argument in %s", src(st))
 			}
 			for _, el := range cl.Elts {
 				p.out = append(p.out, p.byteExpr(el))
 			}
 		case "WriteString":
 			if len(call.Args) != 1 {
-				fail("skeleton: %s", src(st))
+				sfail("skeleton: %s", src(st))
 			}
 			p.out = append(p.out, p.stringBytes(call.Args[0])...)
 		case "Grow":
 			// capacity only
 		default:
-			fail("skeleton: unsupported call %s", src(st))
+			sfail("skeleton: unsupported call %s", src(st))
 		}
 	case *ast.AssignStmt:
 		if s.Tok == token.OR_ASSIGN && len(s.Lhs) == 1 && len(s.Rhs) == 1 && p.ors != nil {
@@ -235,7 +243,7 @@ func (p *interp) stmt(st ast.Stmt) {
 				return
 			}
 			if name == p.byteVar || src(s.Rhs[0]) == p.byteVar {
-				fail("skeleton: the byte variable is reassigned: %s", src(st))
+				sfail("skeleton: the byte variable is reassigned: %s", src(st))
 			}
 		}
 		if src(st) == "hasQ, hasOther := quotable(s)" {
@@ -243,7 +251,7 @@ func (p *interp) stmt(st ast.Stmt) {
 				return
 			}
 		}
-		fail("skeleton: unsupported assignment %s", src(st))
+		sfail("skeleton: unsupported assignment %s", src(st))
 	case *ast.ReturnStmt:
 		switch len(s.Results) {
 		case 0:
@@ -259,7 +267,7 @@ func (p *interp) stmt(st ast.Stmt) {
 				p.term = "return:bytes"
 			}
 		default:
-			fail("skeleton: unsupported return %s", src(st))
+			sfail("skeleton: unsupported return %s", src(st))
 		}
 	case *ast.BranchStmt:
 		switch s.Tok {
@@ -268,10 +276,10 @@ func (p *interp) stmt(st ast.Stmt) {
 		case token.BREAK:
 			p.term = "break"
 		default:
-			fail("skeleton: unsupported branch %s", src(st))
+			sfail("skeleton: unsupported branch %s", src(st))
 		}
 	default:
-		fail("skeleton: unsupported statement %s", src(st))
+		sfail("skeleton: unsupported statement %s", src(st))
 	}
 }
 
@@ -280,7 +288,7 @@ func coqBytes(bs []sbyte, byteName string) string {
 	for i, b := range bs {
 		switch {
 		case b.str:
-			fail("skeleton: the whole string written among other bytes")
+			sfail("skeleton: the whole string written among other bytes")
 		case b.v:
 			parts[i] = byteName
 		default:
@@ -300,7 +308,7 @@ func coqBool(b bool) string {
 func bodyOf(f *ast.File, name string) []ast.Stmt {
 	fd := findFunc(f, name)
 	if fd == nil || fd.Body == nil {
-		fail("function %s not found", name)
+		sfail("function %s not found", name)
 	}
 	return fd.Body.List
 }
@@ -312,7 +320,7 @@ func expectText(where string, st ast.Stmt, want ...string) {
 			return
 		}
 	}
-	fail("skeleton of %s changed: found `%s`, expected `%s`", where, got, want[0])
+	sfail("skeleton of %s changed: found `%s`, expected `%s`", where, got, want[0])
 }
 
 func boolCombos(n int) [][]bool {
@@ -342,33 +350,33 @@ func shellSkeleton(f *ast.File, actions []string) string {
 		}
 	}
 	if loop == nil || loop.Cond != nil || loop.Init != nil || loop.Post != nil {
-		fail("skeleton of Scanner.Next changed: no bare for loop")
+		sfail("skeleton of Scanner.Next changed: no bare for loop")
 	}
 	checksLatch, clearsCur := false, false
 	for _, st := range next[:li] {
 		switch src(st) {
 		case "if s.err != nil { return false }":
 			if clearsCur {
-				fail("skeleton of Scanner.Next changed: latch test after cur.Reset()")
+				sfail("skeleton of Scanner.Next changed: latch test after cur.Reset()")
 			}
 			checksLatch = true
 		case "s.cur.Reset()":
 			clearsCur = true
 		default:
-			fail("skeleton of Scanner.Next changed: unexpected statement before the loop: %s", src(st))
+			sfail("skeleton of Scanner.Next changed: unexpected statement before the loop: %s", src(st))
 		}
 	}
 	if len(next) != li+2 {
-		fail("skeleton of Scanner.Next changed: expected exactly one return after the loop")
+		sfail("skeleton of Scanner.Next changed: expected exactly one return after the loop")
 	}
 	if _, ok := next[li+1].(*ast.ReturnStmt); !ok {
-		fail("skeleton of Scanner.Next changed: the loop is not followed by a return")
+		sfail("skeleton of Scanner.Next changed: the loop is not followed by a return")
 	}
 	body := loop.Body.List
 	k := 0
 	need := func(want ...string) {
 		if k >= len(body) {
-			fail("skeleton of Scanner.Next changed: loop body too short, expected `%s`", want[0])
+			sfail("skeleton of Scanner.Next changed: loop body too short, expected `%s`", want[0])
 		}
 		expectText("Scanner.Next's loop", body[k], want...)
 		k++
@@ -383,11 +391,11 @@ func shellSkeleton(f *ast.File, actions []string) string {
 	need("next := update[s.st][classOf[c]]")
 	need("s.st = next.state")
 	if k != len(body)-1 {
-		fail("skeleton of Scanner.Next changed: statements between the state update and the action switch, or after the switch")
+		sfail("skeleton of Scanner.Next changed: statements between the state update and the action switch, or after the switch")
 	}
 	sw, ok := body[k].(*ast.SwitchStmt)
 	if !ok || sw.Init != nil || src(sw.Tag) != "next.action" {
-		fail("skeleton of Scanner.Next changed: the loop does not end with switch next.action")
+		sfail("skeleton of Scanner.Next changed: the loop does not end with switch next.action")
 	}
 	var deflt []ast.Stmt
 	hasDefault := false
@@ -400,7 +408,7 @@ func shellSkeleton(f *ast.File, actions []string) string {
 		}
 		for _, e := range cl.List {
 			if _, dup := cases[src(e)]; dup {
-				fail("skeleton of Scanner.Next changed: duplicate case %s", src(e))
+				sfail("skeleton of Scanner.Next changed: duplicate case %s", src(e))
 			}
 			cases[src(e)] = cl.Body
 		}
@@ -420,7 +428,7 @@ func shellSkeleton(f *ast.File, actions []string) string {
 		}
 		p := &interp{bools: map[string]bool{}, byteVar: "c", byteLit: -1, writers: map[string]bool{"s.cur": true}}
 		if len(comparedLits(&ast.BlockStmt{List: stmts}, "c")) != 0 {
-			fail("skeleton of Scanner.Next changed: case %s inspects the byte", a)
+			sfail("skeleton of Scanner.Next changed: case %s inspects the byte", a)
 		}
 		p.exec(stmts)
 		acc := "acc"
@@ -436,7 +444,7 @@ func shellSkeleton(f *ast.File, actions []string) string {
 		case "panic":
 			end = "APanic"
 		default:
-			fail("skeleton of Scanner.Next changed: case %s ends with %s", a, p.term)
+			sfail("skeleton of Scanner.Next changed: case %s ends with %s", a, p.term)
 		}
 		fmt.Fprintf(&b, "  | %s => (%s, %s)\n", a, acc, end)
 	}
@@ -451,7 +459,7 @@ func shellSkeleton(f *ast.File, actions []string) string {
 		t := src(st)
 		switch {
 		case restReturns:
-			fail("skeleton of Scanner.Rest changed: statement after the return")
+			sfail("skeleton of Scanner.Rest changed: statement after the return")
 		case t == "s.cur.Reset()":
 			restClears = true
 		case t == "s.err = io.EOF":
@@ -460,11 +468,11 @@ func shellSkeleton(f *ast.File, actions []string) string {
 			restReturns = true
 		case strings.HasPrefix(t, "s.st = "):
 		default:
-			fail("skeleton of Scanner.Rest changed: unexpected statement %s", t)
+			sfail("skeleton of Scanner.Rest changed: unexpected statement %s", t)
 		}
 	}
 	if !restReturns {
-		fail("skeleton of Scanner.Rest changed: it does not return s.buf")
+		sfail("skeleton of Scanner.Rest changed: it does not return s.buf")
 	}
 	b.WriteString("\n(* Scanner.Rest *)\n")
 	fmt.Fprintf(&b, "Definition rest_clears_cur : bool := %s.\nDefinition rest_latches : bool := %s.      (* s.err = io.EOF *)\n", coqBool(restClears), coqBool(restLatches))
@@ -482,7 +490,7 @@ func shellSkeleton(f *ast.File, actions []string) string {
 			rsErr = true
 		case strings.HasPrefix(t, "s.st = "):
 		default:
-			fail("skeleton of Scanner.Reset changed: unexpected statement %s", t)
+			sfail("skeleton of Scanner.Reset changed: unexpected statement %s", t)
 		}
 	}
 	b.WriteString("\n(* Scanner.Reset *)\n")
@@ -495,7 +503,7 @@ func shellSkeleton(f *ast.File, actions []string) string {
 	k = 0
 	needSp := func(want string) {
 		if k >= len(sp) {
-			fail("skeleton of Split changed: expected `%s`", want)
+			sfail("skeleton of Split changed: expected `%s`", want)
 		}
 		expectText("Split", sp[k], want)
 		k++
@@ -509,7 +517,7 @@ func shellSkeleton(f *ast.File, actions []string) string {
 	needSp("ss := sc.Split()")
 	needSp("return ss, sc.Complete()")
 	if k != len(sp) {
-		fail("skeleton of Split changed: extra statements")
+		sfail("skeleton of Split changed: extra statements")
 	}
 	b.WriteString("\n(* Split: the pooled scanner is Reset to the argument before Scanner.Split and Complete *)\n")
 	fmt.Fprintf(&b, "Definition split_resets : bool := %s.\n", coqBool(resets))
@@ -524,25 +532,25 @@ func shellSkeleton(f *ast.File, actions []string) string {
 			got = append(got, src(st))
 		}
 		if strings.Join(got, " | ") != want {
-			fail("skeleton of %s changed: found `%s`, expected `%s`", fn, strings.Join(got, " | "), want)
+			sfail("skeleton of %s changed: found `%s`, expected `%s`", fn, strings.Join(got, " | "), want)
 		}
 	}
 
 	// ---------------- quotable
 	qb := bodyOf(f, "quotable")
 	if len(qb) != 4 {
-		fail("skeleton of quotable changed: %d statements", len(qb))
+		sfail("skeleton of quotable changed: %d statements", len(qb))
 	}
 	expectText("quotable", qb[0], "const ( quote = 1 other = 2 all = quote + other )")
 	expectText("quotable", qb[1], "var v uint")
 	qfor, ok := qb[2].(*ast.ForStmt)
 	if !ok || src(qfor.Init) != "i := 0" || src(qfor.Cond) != "i < len(s) && v < all" || src(qfor.Post) != "i++" {
-		fail("skeleton of quotable changed: loop head")
+		sfail("skeleton of quotable changed: loop head")
 	}
 	expectText("quotable", qb[3], "return v&quote != 0, v&other != 0")
 	qlits := comparedLits(qfor.Body, "s[i]")
 	if len(qlits) != 1 {
-		fail("skeleton of quotable changed: s[i] is compared with %d literals", len(qlits))
+		sfail("skeleton of quotable changed: s[i] is compared with %d literals", len(qlits))
 	}
 	setName, setAtom := "", ""
 	ast.Inspect(qfor.Body, func(n ast.Node) bool {
@@ -550,7 +558,7 @@ func shellSkeleton(f *ast.File, actions []string) string {
 			if call, ok := be.X.(*ast.CallExpr); ok && src(call.Fun) == "strings.IndexByte" && len(call.Args) == 2 && src(call.Args[1]) == "s[i]" {
 				if id, ok := call.Args[0].(*ast.Ident); ok {
 					if setName != "" {
-						fail("skeleton of quotable changed: two IndexByte tests")
+						sfail("skeleton of quotable changed: two IndexByte tests")
 					}
 					setName, setAtom = id.Name, src(be)
 				}
@@ -559,12 +567,12 @@ func shellSkeleton(f *ast.File, actions []string) string {
 		return true
 	})
 	if setName == "" {
-		fail("skeleton of quotable changed: no strings.IndexByte(<set>, s[i]) >= 0 test")
+		sfail("skeleton of quotable changed: no strings.IndexByte(<set>, s[i]) >= 0 test")
 	}
 	switch setName {
 	case "mustQuote", "shouldQuote", "spaces", "allQuote":
 	default:
-		fail("skeleton of quotable changed: unknown character set %s", setName)
+		sfail("skeleton of quotable changed: unknown character set %s", setName)
 	}
 	b.WriteString("\n(* quotable: per byte, which of the two flags the if-chain sets, given (s[i] == quotable_char) and\n   (strings.IndexByte(quotable_set, s[i]) >= 0); the early exit v < all does not change the result *)\n")
 	fmt.Fprintf(&b, "Definition quotable_char : N := %d.\nDefinition quotable_set : list N := %s.\n", qlits[0], setName)
@@ -576,11 +584,11 @@ func shellSkeleton(f *ast.File, actions []string) string {
 		}
 		p.exec(qfor.Body.List)
 		if p.term != "" || len(p.out) != 0 {
-			fail("skeleton of quotable changed: the loop body leaves the loop")
+			sfail("skeleton of quotable changed: the loop body leaves the loop")
 		}
 		for key := range p.ors {
 			if key != "v|=quote" && key != "v|=other" {
-				fail("skeleton of quotable changed: %s", key)
+				sfail("skeleton of quotable changed: %s", key)
 			}
 		}
 		fmt.Fprintf(&b, "  | %s, %s => (%s, %s)\n", coqBool(c[0]), coqBool(c[1]), coqBool(p.ors["v|=quote"]), coqBool(p.ors["v|=other"]))
@@ -605,17 +613,17 @@ func shellSkeleton(f *ast.File, actions []string) string {
 			switch p.term {
 			case "":
 				if len(out) != 0 {
-					fail("skeleton of %s changed: a guard writes and falls through", coqName)
+					sfail("skeleton of %s changed: a guard writes and falls through", coqName)
 				}
 				res = "HLoop"
 			case "return":
 			case "return:bytes":
 				if len(out) != 0 {
-					fail("skeleton of %s changed: a guard writes and returns a value", coqName)
+					sfail("skeleton of %s changed: a guard writes and returns a value", coqName)
 				}
 				out = p.ret
 			default:
-				fail("skeleton of %s changed: a guard ends with %s", coqName, p.term)
+				sfail("skeleton of %s changed: a guard ends with %s", coqName, p.term)
 			}
 			if res == "" {
 				if len(out) == 1 && out[0].str {
@@ -633,7 +641,7 @@ func shellSkeleton(f *ast.File, actions []string) string {
 	tail := head("Quote_head", bodyOf(f, "Quote"), isIf)
 	wantTail := []string{"buf := bufPool.Get().(*bytes.Buffer)", "defer bufPool.Put(buf)", "buf.Reset()", "quote(s, buf)", "return buf.String()"}
 	if len(tail) != len(wantTail) {
-		fail("skeleton of Quote changed: %d statements after the guards", len(tail))
+		sfail("skeleton of Quote changed: %d statements after the guards", len(tail))
 	}
 	for i, w := range wantTail {
 		expectText("Quote", tail[i], w)
@@ -658,7 +666,7 @@ scanTail:
 			case "true":
 				inq0, haveInq = true, true
 			default:
-				fail("skeleton of quote changed: %s", t)
+				sfail("skeleton of quote changed: %s", t)
 			}
 			continue
 		}
@@ -667,27 +675,27 @@ scanTail:
 			qloop, after = st, tail[i+1:]
 			break scanTail
 		default:
-			fail("skeleton of quote changed: unexpected statement %s", t)
+			sfail("skeleton of quote changed: unexpected statement %s", t)
 		}
 	}
 	if qloop == nil || !haveInq {
-		fail("skeleton of quote changed: no loop over the bytes, or inq is not initialised")
+		sfail("skeleton of quote changed: no loop over the bytes, or inq is not initialised")
 	}
 	var lbody []ast.Stmt
 	switch l := qloop.(type) {
 	case *ast.RangeStmt:
 		if src(l.Key) != "i" || l.Value != nil || src(l.X) != "len(s)" || l.Tok != token.DEFINE {
-			fail("skeleton of quote changed: loop head")
+			sfail("skeleton of quote changed: loop head")
 		}
 		lbody = l.Body.List
 	case *ast.ForStmt:
 		if src(l.Init) != "i := 0" || src(l.Cond) != "i < len(s)" || src(l.Post) != "i++" {
-			fail("skeleton of quote changed: loop head")
+			sfail("skeleton of quote changed: loop head")
 		}
 		lbody = l.Body.List
 	}
 	if len(lbody) == 0 || src(lbody[0]) != "ch := s[i]" {
-		fail("skeleton of quote changed: the loop does not start with ch := s[i]")
+		sfail("skeleton of quote changed: the loop does not start with ch := s[i]")
 	}
 	lbody = lbody[1:]
 	lits := comparedLits(&ast.BlockStmt{List: lbody}, "ch")
@@ -700,7 +708,7 @@ scanTail:
 			p := &interp{bools: map[string]bool{"inq": c[0], "hasOther": c[1]}, byteVar: "ch", byteLit: lit, writers: map[string]bool{"buf": true}}
 			p.exec(lbody)
 			if p.term != "" && p.term != "continue" {
-				fail("skeleton of quote changed: the loop body ends with %s", p.term)
+				sfail("skeleton of quote changed: the loop body ends with %s", p.term)
 			}
 			fmt.Fprintf(&b, "%s| %s, %s => (%s, %s)\n", indent, coqBool(c[0]), coqBool(c[1]), coqBytes(p.out, "ch"), coqBool(p.bools["inq"]))
 		}
@@ -718,7 +726,7 @@ scanTail:
 		p := &interp{bools: map[string]bool{"inq": c[0], "hasOther": c[1]}, writers: map[string]bool{"buf": true}, byteLit: -1}
 		p.exec(after)
 		if p.term != "" && p.term != "return" {
-			fail("skeleton of quote changed: after the loop: %s", p.term)
+			sfail("skeleton of quote changed: after the loop: %s", p.term)
 		}
 		fmt.Fprintf(&b, "  | %s, %s => %s\n", coqBool(c[0]), coqBool(c[1]), coqBytes(p.out, "?"))
 	}
@@ -728,7 +736,7 @@ scanTail:
 	jb := bodyOf(f, "Join")
 	wantJ := []string{`if len(ss) == 0 { return "" }`, "buf := bufPool.Get().(*bytes.Buffer)", "defer bufPool.Put(buf)", "buf.Reset()", "quote(ss[0], buf)", "", "return buf.String()"}
 	if len(jb) != len(wantJ) {
-		fail("skeleton of Join changed: %d statements", len(jb))
+		sfail("skeleton of Join changed: %d statements", len(jb))
 	}
 	for i, w := range wantJ {
 		if w != "" {
@@ -737,13 +745,13 @@ scanTail:
 	}
 	jr, ok := jb[5].(*ast.RangeStmt)
 	if !ok || src(jr.Key) != "_" || src(jr.Value) != "s" || src(jr.X) != "ss[1:]" {
-		fail("skeleton of Join changed: loop head")
+		sfail("skeleton of Join changed: loop head")
 	}
 	p := &interp{bools: map[string]bool{}, writers: map[string]bool{"buf": true}, byteLit: -1,
 		stopAt: func(st ast.Stmt) bool { return src(st) == "quote(s, buf)" }}
 	p.exec(jr.Body.List)
 	if p.stopped == nil || p.term != "" || p.stopped != jr.Body.List[len(jr.Body.List)-1] {
-		fail("skeleton of Join changed: the loop body does not end with quote(s, buf)")
+		sfail("skeleton of Join changed: the loop body does not end with quote(s, buf)")
 	}
 	b.WriteString("\n(* Join: what is written between two quoted elements *)\n")
 	fmt.Fprintf(&b, "Definition join_sep : list N := %s.\n", coqBytes(p.out, "?"))
